@@ -156,6 +156,8 @@ def run_C16(ctx, R):
     _scoped(ctx, R, lst.lst1, C16_ENTRIES, 6)
     _scoped(ctx, R, out.out5, C16_ENTRIES, 3)
     _scoped(ctx, R, out.out6, C16_ENTRIES, 1)
+    from .rules import shape
+    _per_config(ctx, R, lambda units, r: shape.shp1(units, r, only_unit='cJSON_Utils.c'))
 
 
 def _own_utils(names):
@@ -195,6 +197,8 @@ def run_C19(ctx, R):
     _scoped(ctx, R, tab.tab20, C19_ENTRIES | C17_ENTRIES | C18_ENTRIES, 0)
     _per_config(ctx, R, lst.lst1)
     _per_config(ctx, R, lst.lst5)
+    from .rules import shape
+    _per_config(ctx, R, shape.shp2)
     _scoped(ctx, R, tab.tab11, C19_ENTRIES, 4)
 
 
@@ -284,6 +288,8 @@ def run_C06(ctx, R):
     _per_config(ctx, R, tree.lst3)
     _per_config(ctx, R, tree.lst4)
     _per_config(ctx, R, parse.tab7)
+    from .rules import shape
+    _per_config(ctx, R, lambda units, r: shape.shp1(units, r, only_unit='cJSON.c'))
 
 
 def run_C11(ctx, R):
@@ -512,8 +518,16 @@ PROPERTIES = {
             "of the detached item). LST3: in the public edit functions no refusal return is reachable after a link store, so a "
             "refused call leaves the containers unchanged. LST4: every dereference of a pointer parameter of a public "
             "function is preceded on all paths by a NULL test of it (listed exceptions with reasons). TAB7: the three "
-            "writers of valueint follow the saturation template.",
-        'not_decided': ['equivalence with the ordered-list/map model over edit histories (which element ends up where)',
+            "writers of valueint follow the saturation template. SHP1: shape analysis by finite instantiation - each array "
+            "editor (append, insert, detach and delete by pointer and by index, replace by pointer and by index) is evaluated "
+            "from its AST over abstract heaps for every list of 0..5 elements and every position/index; the resulting heap must "
+            "be the one the list model gives (child sequence, every prev mirrors a next, the first child's prev is the last "
+            "child, the removed node has no links, exactly the replaced node is deleted). Five elements realise every aliasing "
+            "pattern among head / predecessor / item / successor / tail; the premise that the editors store links at most one "
+            "link away from a node they can name, and not inside loops, is checked, so longer lists add no new case. A single "
+            "edit only: sequences of edits follow because every edit is shown to re-establish the invariant it assumes.",
+        'not_decided': ['lookup by key (first match, case folding) and the object-keyed editors built on it (they resolve the key and '
+                        'then call the pointer-based editors that SHP1 covers)',
                         'lookup semantics (first match, case folding)', 'success flags as values'],
     },
     'C11': {
@@ -694,8 +708,13 @@ PROPERTIES = {
             "The 'healthy tree afterwards' and 'same nodes' sentences. LST1: every function of both units that stores a "
             "non-null child pointer also stores the first child's prev (sort_object included; every internal sorter goes "
             "through sort_object: LST5). LST5: sort_list assigns only next/prev, allocates and releases nothing, calls "
-            "only itself and compare_strings. TAB11: pre-check and merge use the comparator with the caller's flag.",
-        'not_decided': ['sortedness, permutation (no node lost in the merge), idempotence: depend on the merge loop values'],
+            "only itself and compare_strings. TAB11: pre-check and merge use the comparator with the caller's flag. "
+            "SHP2 (bounded): sort_object evaluated from its AST over abstract heaps for every object of up to four members with "
+            "every arrangement of keys (repetitions included) and every arrangement of five distinct keys, both flag values: "
+            "the members afterwards are the same nodes, in non-decreasing key order, every prev mirrors a next and the first "
+            "member's prev is the last member. The comparator is taken by its contract (TAB20 covers its use).",
+        'not_decided': ['sortedness / permutation / idempotence for objects of more than five members: sorting re-links inside '
+                        'loops and recursion, so the short lists of SHP2 are a bounded statement, not a small-model argument'],
     },
 }
 
